@@ -45,6 +45,12 @@ let dump_rules rules =
   cat ";" (sorted (List.map (fun r -> l r.ru_int ^ "/" ^ l r.ru_ext ^ "/" ^ l r.ru_access) rules))
 
 let handle = function
+  | "delreqs" ->
+    let inmod = Array.of_list (listn next_bool) in
+    let rs = listn (fun () -> let a = nn () in let f = next_bool () in (a, f)) in
+    let (st, outs) = delete_requests (fun s -> inmod.(i_of s)) rs in
+    "outs " ^ cat "," (List.map (fun b -> if b then "1" else "0") outs) ^ " | recorded " ^
+    cat "," (List.map (fun (a, f) -> si a ^ ":" ^ (if f then "1" else "0")) st)
   | "requests" ->
     let info = Array.of_list (listn (fun () -> let m = next_bool () in let r = next_bool () in { q_in_module = m; q_has_referent = r })) in
     let rs = listn (fun () -> let a = nn () in let b = nn () in (a, b)) in
